@@ -206,10 +206,10 @@ Proof.
   - intros t l H. rewrite Hg' in H. destruct (Hcases _ _ H0 H) as [(E & ->)|(Hne & Hg)]; [subst lr; rewrite Hty; eauto|eauto].
   - intros lr1 l1 H. rewrite Hg' in H. destruct (Hcases _ _ H0 H) as [(-> & ->)|(Hne & Hg)]; eauto.
   - unfold v', v1. cbn. rewrite set_blist_uids. auto.
-  - unfold v', v1. cbn. rewrite set_blist_next_uid. eapply Forall_map_eq with (f := p_uid) (P := fun u => 0 < u < v_next_uid v);
+  - unfold v', v1. cbn. rewrite set_blist_next_uid. eapply Forall_map_eq with (f := p_uid) (P := fun u => u < v_next_uid v);
       [symmetry; apply set_blist_uids|reflexivity|exact I_pu].
   - unfold v', v1. cbn. rewrite set_blist_pids, set_blist_next_pid. destruct I_pi as (Hn & Hf). split; [auto|].
-    eapply Forall_map_eq with (f := p_id) (P := fun u => 0 <= u < v_next_pool_id v);
+    eapply Forall_map_eq with (f := p_id) (P := fun u => u < v_next_pool_id v);
       [symmetry; apply set_blist_pids|reflexivity|exact Hf].
   - rewrite Hm'. auto.
   - rewrite Hm'. auto.
@@ -592,10 +592,10 @@ Proof.
     + apply Forall_app. split; [eapply Forall_impl; [|exact W2]; cbn; intros; lia|]. constructor; [lia|constructor].
     + apply Forall_app. split; [auto|]. constructor; auto.
   - cbn. unfold v1. rewrite set_blist_uids. auto.
-  - cbn. unfold v1. rewrite set_blist_next_uid. eapply Forall_map_eq with (f := p_uid) (P := fun u => 0 < u < v_next_uid v);
+  - cbn. unfold v1. rewrite set_blist_next_uid. eapply Forall_map_eq with (f := p_uid) (P := fun u => u < v_next_uid v);
       [symmetry; apply set_blist_uids|reflexivity|exact I_pu].
   - cbn. unfold v1. rewrite set_blist_pids, set_blist_next_pid. destruct I_pi as (Hn & Hf). split; [auto|].
-    eapply Forall_map_eq with (f := p_id) (P := fun u => 0 <= u < v_next_pool_id v);
+    eapply Forall_map_eq with (f := p_id) (P := fun u => u < v_next_pool_id v);
       [symmetry; apply set_blist_pids|reflexivity|exact Hf].
   - cbn. rewrite Hmems, map_app. cbn. apply NoDup_app_intro_z; auto.
     + constructor; [tauto|constructor].
@@ -711,10 +711,10 @@ Proof.
     + apply Forall_forall. intros x Hx. rewrite Forall_forall in W2. apply W2. eapply in_remove_block; eauto.
     + apply Forall_forall. intros x Hx. rewrite Forall_forall in W3. apply W3. eapply in_remove_block; eauto.
   - cbn. unfold v1. rewrite set_blist_uids. auto.
-  - cbn. unfold v1. rewrite set_blist_next_uid. eapply Forall_map_eq with (f := p_uid) (P := fun u => 0 < u < v_next_uid v);
+  - cbn. unfold v1. rewrite set_blist_next_uid. eapply Forall_map_eq with (f := p_uid) (P := fun u => u < v_next_uid v);
       [symmetry; apply set_blist_uids|reflexivity|exact I_pu].
   - cbn. unfold v1. rewrite set_blist_pids, set_blist_next_pid. destruct I_pi as (Hn & Hf). split; [auto|].
-    eapply Forall_map_eq with (f := p_id) (P := fun u => 0 <= u < v_next_pool_id v);
+    eapply Forall_map_eq with (f := p_id) (P := fun u => u < v_next_pool_id v);
       [symmetry; apply set_blist_pids|reflexivity|exact Hf].
   - cbn. rewrite Hmems. apply remove_mem_nodup. auto.
   - cbn. rewrite Hmems, Hnext. apply Forall_forall. intros x Hx. rewrite Forall_forall in I_dx. apply I_dx.
@@ -895,9 +895,9 @@ Proof.
   - intros t l. rewrite Hg'. eauto.
   - intros lr l. rewrite Hg'. eauto.
   - rewrite Hpu. auto.
-  - rewrite Hnu. eapply Forall_map_eq with (f := p_uid) (P := fun u => 0 < u < v_next_uid v); [symmetry; exact Hpu|reflexivity|exact I_pu].
+  - rewrite Hnu. eapply Forall_map_eq with (f := p_uid) (P := fun u => u < v_next_uid v); [symmetry; exact Hpu|reflexivity|exact I_pu].
   - rewrite Hpi, Hnp. destruct I_pi as (Hn & Hf). split; [auto|].
-    eapply Forall_map_eq with (f := p_id) (P := fun u => 0 <= u < v_next_pool_id v); [symmetry; exact Hpi|reflexivity|exact Hf].
+    eapply Forall_map_eq with (f := p_id) (P := fun u => u < v_next_pool_id v); [symmetry; exact Hpi|reflexivity|exact Hf].
   - rewrite Hmems. apply remove_mem_nodup. auto.
   - rewrite Hmems, Hnext. apply Forall_forall. intros x Hx. rewrite Forall_forall in I_dx. apply I_dx. eapply in_remove_mem; eauto.
   - intros lr l b. rewrite Hg'. intros G B. destruct (I_bm _ _ _ G B) as (x & Hf & R). exists x. split; [|exact R].
@@ -953,9 +953,9 @@ Proof.
   - intros t l. rewrite Hg'. eauto.
   - intros lr1 l. rewrite Hg'. eauto.
   - rewrite Hpu. auto.
-  - rewrite Hnu. eapply Forall_map_eq with (f := p_uid) (P := fun u => 0 < u < v_next_uid v); [symmetry; exact Hpu|reflexivity|exact I_pu].
+  - rewrite Hnu. eapply Forall_map_eq with (f := p_uid) (P := fun u => u < v_next_uid v); [symmetry; exact Hpu|reflexivity|exact I_pu].
   - rewrite Hpi, Hnp. destruct I_pi as (Hn & Hf). split; [auto|].
-    eapply Forall_map_eq with (f := p_id) (P := fun u => 0 <= u < v_next_pool_id v); [symmetry; exact Hpi|reflexivity|exact Hf].
+    eapply Forall_map_eq with (f := p_id) (P := fun u => u < v_next_pool_id v); [symmetry; exact Hpi|reflexivity|exact Hf].
   - rewrite Hm. auto.
   - rewrite Hm. auto.
   - rewrite Hm. intros lr1 l b. rewrite Hg'. eauto.
@@ -1029,9 +1029,9 @@ Proof.
   - intros t l. rewrite E1. eauto.
   - intros lr l. rewrite E1. eauto.
   - rewrite E7. auto.
-  - rewrite E9. eapply Forall_map_eq with (f := p_uid) (P := fun u => 0 < u < v_next_uid v); [symmetry; exact E7|reflexivity|exact I_pu].
+  - rewrite E9. eapply Forall_map_eq with (f := p_uid) (P := fun u => u < v_next_uid v); [symmetry; exact E7|reflexivity|exact I_pu].
   - rewrite E8, E10. destruct I_pi as (Hn & Hf). split; [auto|].
-    eapply Forall_map_eq with (f := p_id) (P := fun u => 0 <= u < v_next_pool_id v); [symmetry; exact E8|reflexivity|exact Hf].
+    eapply Forall_map_eq with (f := p_id) (P := fun u => u < v_next_pool_id v); [symmetry; exact E8|reflexivity|exact Hf].
   - rewrite E4. auto.
   - rewrite E4. auto.
   - rewrite E4. intros lr l b. rewrite E1. eauto.
@@ -1177,4 +1177,224 @@ Proof.
     assert (E : dm_id y = dm_id x) by (unfold mem_key in Hk; congruence).
     destruct (dm_id y =? dm_id d) eqn:Ey; [apply Z.eqb_eq in Ey; exfalso; apply (Hf x); [left; reflexivity|congruence]|].
     cbn [map]. rewrite Hk. f_equal. apply IH; auto. intros z Hz. apply Hf. right. auto.
+Qed.
+
+(* the mapping state kept inside a dedicated Allocation changes *)
+Lemma VamInvU_set_alloc_sm c v U X s a sm' :
+  VamInvU c v U X -> slot_is v s a -> VamInvU c (set_alloc v s (set_a_sm a sm')) U X.
+Proof.
+  intros HI Sa. inv_fields HI. pose proof (slot_is_range _ _ _ Sa) as Hr.
+  set (a' := set_a_sm a sm'). set (v' := set_alloc v s a').
+  assert (Hoth : forall s1 a1, s1 <> s -> (slot_is v' s1 a1 <-> slot_is v s1 a1)) by (intros; apply slot_is_set_alloc_other; auto).
+  assert (Hsame : forall a1, slot_is v' s a1 <-> a1 = a').
+  { intros a1. unfold v'. rewrite slot_is_set_alloc_same by auto. destruct Sa as (_ & Ha). unfold a'. cbn. tauto. }
+  (* every slot of the new state corresponds to a slot of the old state with the same visible fields *)
+  assert (Hfw : forall s1 a1, slot_is v' s1 a1 -> exists a0, slot_is v s1 a0 /\ a_kind a0 = a_kind a1 /\ a_lref a0 = a_lref a1 /\
+             a_blk a0 = a_blk a1 /\ a_handle a0 = a_handle a1 /\ a_mem a0 = a_mem a1 /\ a_type a0 = a_type a1 /\
+             a_size a0 = a_size a1 /\ a_align a0 = a_align a1).
+  { intros s1 a1 H. destruct (Z.eq_dec s1 s) as [->|Hne].
+    - apply Hsame in H. subst a1. exists a. split; [exact Sa|]. unfold a'. cbn. repeat split; auto.
+    - exists a1. apply Hoth in H; auto. split; [exact H|]. repeat split; auto. }
+  assert (Hbw : forall s1 a0, slot_is v s1 a0 -> exists a1, slot_is v' s1 a1 /\ a_kind a0 = a_kind a1 /\ a_lref a0 = a_lref a1 /\
+             a_blk a0 = a_blk a1 /\ a_handle a0 = a_handle a1 /\ a_mem a0 = a_mem a1).
+  { intros s1 a0 H. destruct (Z.eq_dec s1 s) as [->|Hne].
+    - assert (a0 = a) by (destruct H, Sa; congruence). subst a0. exists a'. split; [apply Hsame; auto|]. unfold a'. cbn. repeat split; auto.
+    - exists a0. split; [apply Hoth; auto|]. repeat split; auto. }
+  assert (Hg' : forall lr, get_blist v' lr = get_blist v lr) by (intros; apply get_blist_set_alloc).
+  assert (Hd' : forall lr, get_dedlist v' lr = get_dedlist v lr) by (intros; apply get_dedlist_set_alloc).
+  clear HI. constructor.
+  - exact I_ll.
+  - exact I_dl.
+  - intros t l. rewrite Hg'. eauto.
+  - intros lr l. rewrite Hg'. eauto.
+  - exact I_pn.
+  - exact I_pu.
+  - exact I_pi.
+  - exact I_dn.
+  - exact I_dx.
+  - intros lr l b. rewrite Hg'. apply I_bm.
+  - intros lr1 l1 b1 lr2 l2 b2. rewrite !Hg'. apply I_bi.
+  - intros s1 a1 lr l b S K. rewrite Hg'. destruct (Hfw _ _ S) as (a0 & S0 & K0 & _ & _ & _ & M0 & _). rewrite <- M0. eapply I_db; eauto. congruence.
+  - intros s1 a1 s2 a2 S1 K1 S2 K2 M. destruct (Hfw _ _ S1) as (b1 & T1 & L1 & _ & _ & _ & M1 & _).
+    destruct (Hfw _ _ S2) as (b2 & T2 & L2 & _ & _ & _ & M2 & _). eapply (I_di s1 b1 s2 b2); eauto; congruence.
+  - intros d Hd. destruct (I_do d Hd) as [(lr & l & b & G & R)|(s1 & a0 & S0 & K0 & M0)].
+    + left. exists lr, l, b. rewrite Hg'. auto.
+    + destruct (Hbw _ _ S0) as (a1 & S1 & K1 & _ & _ & _ & M1). right. exists s1, a1. split; [auto|]. split; congruence.
+  - intros s1 a1 S HX. destruct (Hfw _ _ S) as (a0 & S0 & K0 & L0 & B0 & H0 & M0 & T0 & Z0 & A0).
+    destruct (I_sl s1 a0 S0 HX) as [(K & l & b & rg & R1 & R2 & R3 & R4 & R5 & R6 & R7 & R8 & R9 & R10)|(K & R1 & R2 & R3)].
+    + left. split; [congruence|]. exists l, b, rg. rewrite Hg'. rewrite <- L0, <- B0, <- H0, <- M0, <- T0, <- Z0, <- A0.
+      repeat split; auto.
+    + right. split; [congruence|]. unfold ded_alloc_ok. rewrite <- L0, <- M0, <- T0, <- Z0. split; [|split].
+      * rewrite Hd'. auto.
+      * destruct R2 as (l & R2). exists l. rewrite Hg'. auto.
+      * exact R3.
+  - intros lr l b rg. rewrite Hg'. intros G B R. destruct (I_tg _ _ _ _ G B R) as (s1 & a0 & T1 & S0 & K0 & L0 & B0 & H0).
+    destruct (Hbw _ _ S0) as (a1 & S1 & K1 & L1 & B1 & H1 & _). exists s1, a1. split; [auto|]. split; [auto|]. repeat split; congruence.
+  - intros lr s1. rewrite Hd'. intros Hin. destruct (I_dd _ _ Hin) as (a0 & S0 & K0 & L0). destruct (Hbw _ _ S0) as (a1 & S1 & K1 & L1 & _).
+    exists a1. split; [auto|]. split; congruence.
+  - intros lr. rewrite Hd'. auto.
+  - intros s1 Hin. destruct (I_ur _ Hin) as (a0 & S0 & K0 & N0). destruct (Hbw _ _ S0) as (a1 & S1 & K1 & L1 & _).
+    exists a1. split; [auto|]. split; [congruence|]. rewrite Hd', <- L1. auto.
+  - intros s1 Hin. destruct (I_dg _ Hin) as (a0 & S0 & K0). destruct (Hbw _ _ S0) as (a1 & S1 & K1 & _). exists a1. split; [auto|congruence].
+  - intros s1 lr l b rg Hin. rewrite Hg'. eauto.
+  - exact I_nn.
+  - exact I_dp.
+Qed.
+
+(* ---------------------------------------------------------------- pools *)
+
+Lemma find_pool_none_fresh ps uid : Forall (fun p => p_uid p < uid) ps -> find_pool ps uid = None.
+Proof.
+  induction ps as [|x ps IH]; cbn; [reflexivity|]. intros H. inversion H; subst.
+  destruct (p_uid x =? uid) eqn:E; [apply Z.eqb_eq in E; lia|auto].
+Qed.
+
+(* CreatePool links a new pool with an empty block list, the next uid and the next id *)
+Lemma VamInvU_add_pool c v U X l0 :
+  VamInvU c v U X -> blist_wf c l0 -> bl_blocks l0 = [] ->
+  VamInvU c (mkVam (v_m v) (v_global v) (v_lists v) (v_ded v)
+                   (mkPool (v_next_uid v) (v_next_pool_id v) l0 [] :: v_pools v)
+                   (v_next_pool_id v + 1) (v_next_uid v + 1) (v_tab v)) U X.
+Proof.
+  intros HI Hwf Hemp. inv_fields HI. set (uid := v_next_uid v).
+  set (v' := mkVam (v_m v) (v_global v) (v_lists v) (v_ded v) (mkPool uid (v_next_pool_id v) l0 [] :: v_pools v)
+                   (v_next_pool_id v + 1) (uid + 1) (v_tab v)).
+  assert (Hfresh : find_pool (v_pools v) uid = None).
+  { apply find_pool_none_fresh. eapply Forall_impl; [|exact I_pu]. cbn. intros; lia. }
+  assert (Hg' : forall lr, get_blist v' lr = match lr with LPool u => if u =? uid then Some l0 else get_blist v lr | _ => get_blist v lr end).
+  { intros [t|u]; cbn; [reflexivity|]. destruct (uid =? u) eqn:E; rewrite Z.eqb_sym, E; reflexivity. }
+  assert (Hgold : forall lr l, get_blist v' lr = Some l -> (lr = LPool uid /\ l = l0) \/ (lr <> LPool uid /\ get_blist v lr = Some l)).
+  { intros lr l H. rewrite Hg' in H. destruct lr as [t|u]; [right; split; [discriminate|auto]|].
+    destruct (u =? uid) eqn:E; [apply Z.eqb_eq in E; subst; injection H as <-; left; auto|].
+    apply Z.eqb_neq in E. right. split; [congruence|auto]. }
+  assert (Hgnew : forall lr l, get_blist v lr = Some l -> get_blist v' lr = Some l).
+  { intros lr l H. rewrite Hg'. destruct lr as [t|u]; [auto|]. destruct (u =? uid) eqn:E; [|auto].
+    apply Z.eqb_eq in E. subst u. cbn in H. rewrite Hfresh in H. discriminate. }
+  assert (Hd' : forall lr, get_dedlist v' lr = get_dedlist v lr).
+  { intros [t|u]; cbn; [reflexivity|]. destruct (uid =? u) eqn:E; [|reflexivity].
+    apply Z.eqb_eq in E. subst u. rewrite Hfresh. reflexivity. }
+  assert (Hsl : forall s a, slot_is v' s a <-> slot_is v s a) by (intros; unfold slot_is; cbn; tauto).
+  constructor.
+  - exact I_ll.
+  - exact I_dl.
+  - intros t l H. destruct (Hgold _ _ H) as [(E & _)|(_ & G)]; [discriminate|eauto].
+  - intros lr l H. destruct (Hgold _ _ H) as [(_ & ->)|(_ & G)]; eauto.
+  - cbn. constructor; [|auto]. intros Hin. apply in_map_iff in Hin. destruct Hin as (p & Hp & Hip).
+    rewrite Forall_forall in I_pu. specialize (I_pu p Hip). fold uid in I_pu. lia.
+  - cbn. constructor; [cbn; lia|]. eapply Forall_impl; [|exact I_pu]. cbn. unfold uid. intros; lia.
+  - cbn. destruct I_pi as (Hn & Hf). split.
+    + constructor; [|auto]. intros Hin. apply in_map_iff in Hin. destruct Hin as (p & Hp & Hip).
+      rewrite Forall_forall in Hf. specialize (Hf p Hip). lia.
+    + constructor; [cbn; lia|]. eapply Forall_impl; [|exact Hf]. cbn. intros; lia.
+  - exact I_dn.
+  - exact I_dx.
+  - intros lr l b H Hb. destruct (Hgold _ _ H) as [(_ & ->)|(_ & G)]; [rewrite Hemp in Hb; destruct Hb|eauto].
+  - intros lr1 l1 b1 lr2 l2 b2 H1 B1 H2 B2.
+    destruct (Hgold _ _ H1) as [(_ & ->)|(_ & G1)]; [rewrite Hemp in B1; destruct B1|].
+    destruct (Hgold _ _ H2) as [(_ & ->)|(_ & G2)]; [rewrite Hemp in B2; destruct B2|]. eauto.
+  - intros s a lr l b S K H Hb. apply Hsl in S. destruct (Hgold _ _ H) as [(_ & ->)|(_ & G)]; [rewrite Hemp in Hb; destruct Hb|eauto].
+  - intros s1 a1 s2 a2 S1 K1 S2 K2. apply Hsl in S1. apply Hsl in S2. eauto.
+  - intros d Hd. destruct (I_do d Hd) as [(lr & l & b & G & R)|(s & a & S & R)].
+    + left. exists lr, l, b. split; [apply Hgnew; auto|auto].
+    + right. exists s, a. split; [apply Hsl; auto|auto].
+  - intros s a S HX. apply Hsl in S. destruct (I_sl s a S HX) as [(K & l & b & rg & G & R)|(K & R1 & (l & G & T) & R3)].
+    + left. split; [auto|]. exists l, b, rg. split; [apply Hgnew; auto|auto].
+    + right. split; [auto|]. split; [rewrite Hd'; auto|]. split; [exists l; split; [apply Hgnew; auto|auto]|exact R3].
+  - intros lr l b rg H Hb Hrg. destruct (Hgold _ _ H) as [(_ & ->)|(_ & G)]; [rewrite Hemp in Hb; destruct Hb|].
+    destruct (I_tg _ _ _ _ G Hb Hrg) as (s & a & T1 & T2 & T3). exists s, a. split; [auto|]. split; [apply Hsl; auto|auto].
+  - intros lr s. rewrite Hd'. intros Hin. destruct (I_dd _ _ Hin) as (a & R1 & R). exists a. split; [apply Hsl; auto|auto].
+  - intros lr. rewrite Hd'. auto.
+  - intros s Hin. destruct (I_ur _ Hin) as (a & R1 & R2 & R3). exists a. split; [apply Hsl; auto|]. split; [auto|]. rewrite Hd'. auto.
+  - intros s Hin. destruct (I_dg _ Hin) as (a & R1 & R). exists a. split; [apply Hsl; auto|auto].
+  - intros s lr l b rg Hin H Hb. destruct (Hgold _ _ H) as [(_ & ->)|(_ & G)]; [rewrite Hemp in Hb; destruct Hb|eauto].
+  - exact I_nn.
+  - exact I_dp.
+Qed.
+
+Lemma find_remove_pool ps uid u : find_pool (remove_pool ps uid) u = if u =? uid then find_pool (remove_pool ps uid) u else find_pool ps u.
+Proof.
+  destruct (u =? uid) eqn:E; [reflexivity|]. apply Z.eqb_neq in E.
+  induction ps as [|x ps IH]; cbn; [reflexivity|]. destruct (p_uid x =? uid) eqn:Ex; cbn.
+  - apply Z.eqb_eq in Ex. destruct (p_uid x =? u) eqn:Eu; [lia|reflexivity].
+  - destruct (p_uid x =? u); [reflexivity|exact IH].
+Qed.
+
+Lemma find_remove_pool_same ps uid : NoDup (map p_uid ps) -> find_pool (remove_pool ps uid) uid = None.
+Proof.
+  induction ps as [|x ps IH]; cbn; [reflexivity|]. intros Hnd. inversion Hnd as [|? ? Hx Hr]; subst.
+  destruct (p_uid x =? uid) eqn:Ex.
+  - apply Z.eqb_eq in Ex. destruct (find_pool ps uid) as [p|] eqn:E; [|reflexivity].
+    exfalso. destruct (find_pool_in _ _ _ E) as (Hp & Hu). apply Hx. rewrite Ex, <- Hu. apply in_map. auto.
+  - cbn. rewrite Ex. auto.
+Qed.
+
+Lemma in_remove_pool ps uid p : In p (remove_pool ps uid) -> In p ps.
+Proof.
+  induction ps as [|x ps IH]; cbn; [tauto|]. destruct (p_uid x =? uid); [intros H; right; exact H|].
+  intros [->|H]; [left; reflexivity|right; auto].
+Qed.
+
+(* a pool without blocks and without dedicated allocations is unlinked; nextPoolId may be lowered to any
+   value above the remaining ids *)
+Lemma VamInvU_remove_pool c v X uid p nextId :
+  VamInvU c v [] X -> find_pool (v_pools v) uid = Some p -> bl_blocks (p_list p) = [] -> p_ded p = [] ->
+  Forall (fun q => p_id q < nextId) (remove_pool (v_pools v) uid) -> 
+  VamInvU c (mkVam (v_m v) (v_global v) (v_lists v) (v_ded v) (remove_pool (v_pools v) uid) nextId (v_next_uid v) (v_tab v)) [] X.
+Proof.
+  intros HI Hf Hemp Hded Hids. inv_fields HI.
+  set (v' := mkVam (v_m v) (v_global v) (v_lists v) (v_ded v) (remove_pool (v_pools v) uid) nextId (v_next_uid v) (v_tab v)).
+  assert (Hgold : forall lr l, get_blist v' lr = Some l -> lr <> LPool uid /\ get_blist v lr = Some l).
+  { intros [t|u] l H; cbn in H; [split; [discriminate|auto]|]. rewrite find_remove_pool in H. destruct (u =? uid) eqn:E.
+    - apply Z.eqb_eq in E. subst u. rewrite find_remove_pool_same in H by auto. discriminate.
+    - apply Z.eqb_neq in E. split; [congruence|auto]. }
+  assert (Hgnew : forall lr l, lr <> LPool uid -> get_blist v lr = Some l -> get_blist v' lr = Some l).
+  { intros [t|u] l Hne H; cbn; [auto|]. rewrite find_remove_pool. destruct (u =? uid) eqn:E; [apply Z.eqb_eq in E; congruence|auto]. }
+  assert (Hd' : forall lr, lr <> LPool uid -> get_dedlist v' lr = get_dedlist v lr).
+  { intros [t|u] Hne; cbn; [reflexivity|]. rewrite find_remove_pool. destruct (u =? uid) eqn:E; [apply Z.eqb_eq in E; congruence|reflexivity]. }
+  assert (Hd0 : get_dedlist v' (LPool uid) = []) by (cbn; rewrite find_remove_pool_same by auto; reflexivity).
+  assert (Hdold : get_dedlist v (LPool uid) = []) by (cbn; rewrite Hf; auto).
+  assert (Hgu : get_blist v (LPool uid) = Some (p_list p)) by (cbn; rewrite Hf; auto).
+  assert (Hsl : forall s a, slot_is v' s a <-> slot_is v s a) by (intros; unfold slot_is; cbn; tauto).
+  assert (Hdl : forall lr, get_dedlist v' lr = get_dedlist v lr).
+  { intros lr. destruct (lref_eq_dec lr (LPool uid)) as [->|Hne]; [congruence|auto]. }
+  assert (Hnoref : forall s a, slot_is v s a -> ~ In s X -> a_lref a <> LPool uid).
+  { intros s a S HX E. destruct (I_sl s a S HX) as [(K & l & b & rg & G & B & _)|(K & [R1|[]] & _)].
+    - rewrite E, Hgu in G. injection G as <-. rewrite Hemp in B. destruct B.
+    - rewrite E, Hdold in R1. destruct R1. }
+  assert (Hblk : forall lr l b, get_blist v lr = Some l -> In b (bl_blocks l) -> lr <> LPool uid).
+  { intros lr l b G B E. subst lr. rewrite Hgu in G. injection G as <-. rewrite Hemp in B. destruct B. }
+  constructor.
+  - exact I_ll.
+  - exact I_dl.
+  - intros t l H. destruct (Hgold _ _ H). eauto.
+  - intros lr l H. destruct (Hgold _ _ H). eauto.
+  - cbn. clear - I_pn. induction (v_pools v) as [|x ps IH]; cbn; [constructor|]. inversion I_pn as [|? ? Hx Hr]; subst.
+    destruct (p_uid x =? uid); [auto|]. cbn. constructor; [|auto]. intros Hin. apply Hx. apply in_map_iff in Hin.
+    destruct Hin as (y & Hy & Hiy). rewrite <- Hy. apply in_map. eapply in_remove_pool; eauto.
+  - cbn. apply Forall_forall. intros q Hq. rewrite Forall_forall in I_pu. apply I_pu. eapply in_remove_pool; eauto.
+  - cbn. split; [|exact Hids]. destruct I_pi as (Hn & _). clear - Hn. induction (v_pools v) as [|x ps IH]; cbn; [constructor|].
+    inversion Hn as [|? ? Hx Hr]; subst. destruct (p_uid x =? uid); [auto|]. cbn. constructor; [|auto]. intros Hin. apply Hx.
+    apply in_map_iff in Hin. destruct Hin as (y & Hy & Hiy). rewrite <- Hy. apply in_map. eapply in_remove_pool; eauto.
+  - exact I_dn.
+  - exact I_dx.
+  - intros lr l b H. destruct (Hgold _ _ H). eauto.
+  - intros lr1 l1 b1 lr2 l2 b2 H1 B1 H2 B2. destruct (Hgold _ _ H1). destruct (Hgold _ _ H2). eauto.
+  - intros s a lr l b S K H. apply Hsl in S. destruct (Hgold _ _ H). eauto.
+  - intros s1 a1 s2 a2 S1 K1 S2 K2. apply Hsl in S1. apply Hsl in S2. eauto.
+  - intros d Hd. destruct (I_do d Hd) as [(lr & l & b & G & B & R)|(s & a & S & R)].
+    + left. exists lr, l, b. split; [apply Hgnew; [eapply Hblk; eauto|auto]|auto].
+    + right. exists s, a. split; [apply Hsl; auto|auto].
+  - intros s a S HX. apply Hsl in S. pose proof (Hnoref s a S HX) as Hne.
+    destruct (I_sl s a S HX) as [(K & l & b & rg & G & R)|(K & R1 & (l & G & T) & R3)].
+    + left. split; [auto|]. exists l, b, rg. split; [apply Hgnew; auto|auto].
+    + right. split; [auto|]. split; [rewrite Hdl; auto|]. split; [exists l; split; [apply Hgnew; auto|auto]|exact R3].
+  - intros lr l b rg H Hb Hrg. destruct (Hgold _ _ H) as (_ & G).
+    destruct (I_tg _ _ _ _ G Hb Hrg) as (s & a & T1 & T2 & T3). exists s, a. split; [auto|]. split; [apply Hsl; auto|auto].
+  - intros lr s. rewrite Hdl. intros Hin. destruct (I_dd _ _ Hin) as (a & R1 & R). exists a. split; [apply Hsl; auto|auto].
+  - intros lr. rewrite Hdl. auto.
+  - intros s [].
+  - intros s Hin. destruct (I_dg _ Hin) as (a & R1 & R). exists a. split; [apply Hsl; auto|auto].
+  - intros s lr l b rg Hin H. destruct (Hgold _ _ H). eauto.
+  - exact I_nn.
+  - exact I_dp.
 Qed.
